@@ -245,3 +245,410 @@ pub(crate) fn c_drop_buffer<const N: usize>() {
     assert!(ledger_ok(&Seq::new(), &Seq::new()), "[C03] dropping the buffer: element leaked or destroyed twice");
     nd::reached();
 }
+
+// ----- make_contiguous and views (C01 C07 C20) ---------------------------------------------
+
+fn slot_ptr<const N: usize>(b: &CircularBuffer<N, Tok>, i: usize) -> *const Tok {
+    b.items[phys(b.start, i, N)].as_ptr()
+}
+
+pub(crate) fn c_make_contiguous<const N: usize>() {
+    let mut b = any_tokbuf::<N>();
+    let old = ids_of(&b); let old_slots = slots_of(&b);
+    let was_contiguous = N == 0 || b.start + b.size <= N;
+    let (ptr0, rlen, first_ok) = {
+        let s = b.make_contiguous();
+        let mut ok = s.len() == old.len;
+        let mut i = 0; while i < s.len() && i < old.len { if s[i].id != old.a[i] { ok = false; } i += 1; }
+        (s.as_ptr(), s.len(), ok)
+    };
+    post_common(&b, "make_contiguous");
+    assert!(first_ok, "[C01,C07] make_contiguous: returned slice is not the whole contents in order");
+    let new = ids_of(&b);
+    assert!(new.eq(&old), "[C01] make_contiguous: logical contents changed");
+    if old.len > 0 { assert!(ptr0 == slot_ptr(&b, 0), "[C07] make_contiguous: returned slice does not alias the buffer's elements"); }
+    assert!(N == 0 || b.start + b.size <= N, "[C07] make_contiguous: contents not contiguous afterwards");
+    { let (x, y) = b.as_slices(); assert!(y.len() == 0 && x.len() == old.len, "[C07] make_contiguous: as_slices still reports two slices"); }
+    assert!(ledger_ok(&new, &Seq::new()), "[C03] make_contiguous: element lost, duplicated or destroyed");
+    if was_contiguous { assert!(relocated(&old_slots, &slots_of(&b), next_id()) == 0, "[C20] make_contiguous relocated elements although the contents were already contiguous"); }
+    nd::reached();
+    core::mem::forget(b);
+}
+
+pub(crate) fn c_get<const N: usize>() {
+    let b = any_tokbuf::<N>();
+    let old = ids_of(&b);
+    let i = nd::any_usize();
+    // get / nth_front
+    match b.get(i) { Some(t) => assert!(i < old.len && t.id == old.a[i] && (t as *const Tok) == slot_ptr(&b, i), "[C07] get(i): wrong element or address"),
+                     None => assert!(i >= old.len, "[C07,C11] get(i) returned None for a position inside the contents") }
+    match b.nth_front(i) { Some(t) => assert!(i < old.len && (t as *const Tok) == slot_ptr(&b, i), "[C07] nth_front(i): wrong element or address"),
+                           None => assert!(i >= old.len, "[C07] nth_front(i) returned None for a position inside the contents") }
+    match b.nth_back(i) { Some(t) => assert!(i < old.len && (t as *const Tok) == slot_ptr(&b, old.len - 1 - i), "[C07] nth_back(i): wrong element or address"),
+                          None => assert!(i >= old.len, "[C07] nth_back(i) returned None for a position inside the contents") }
+    match b.front() { Some(t) => assert!(old.len > 0 && (t as *const Tok) == slot_ptr(&b, 0), "[C07] front(): wrong element or address"),
+                      None => assert!(old.len == 0, "[C07] front() returned None on a non-empty buffer") }
+    match b.back() { Some(t) => assert!(old.len > 0 && (t as *const Tok) == slot_ptr(&b, old.len - 1), "[C07] back(): wrong element or address"),
+                     None => assert!(old.len == 0, "[C07] back() returned None on a non-empty buffer") }
+    if i < old.len { let t = &b[i]; assert!((t as *const Tok) == slot_ptr(&b, i), "[C07] index(i): wrong element or address"); }
+    assert!(b.len() == old.len && b.capacity() == N, "[C01,C07] len()/capacity() disagree with the contents");
+    assert!(ids_of(&b).eq(&old), "[C07] read accessor changed the buffer");
+    nd::reached();
+    core::mem::forget(b);
+}
+
+pub(crate) fn c_get_mut<const N: usize>() {
+    let mut b = any_tokbuf::<N>();
+    let old = ids_of(&b);
+    let (st, sz) = (b.start, b.size);
+    let i = nd::any_usize();
+    let which = nd::usize_in(0, 5);
+    let (got, want_idx): (Option<*mut Tok>, Option<usize>) = match which {
+        0 => (b.get_mut(i).map(|t| t as *mut Tok), if i < old.len { Some(i) } else { None }),
+        1 => (b.nth_front_mut(i).map(|t| t as *mut Tok), if i < old.len { Some(i) } else { None }),
+        2 => (b.nth_back_mut(i).map(|t| t as *mut Tok), if i < old.len { Some(old.len - 1 - i) } else { None }),
+        3 => (b.front_mut().map(|t| t as *mut Tok), if old.len > 0 { Some(0) } else { None }),
+        4 => (b.back_mut().map(|t| t as *mut Tok), if old.len > 0 { Some(old.len - 1) } else { None }),
+        _ => { if i < old.len { (Some(&mut b[i] as *mut Tok), Some(i)) } else { (None, None) } }
+    };
+    match (got, want_idx) {
+        (Some(p), Some(k)) => assert!(p as *const Tok == slot_ptr(&b, k), "[C07] mutable accessor does not address exactly the requested element"),
+        (None, None) => {},
+        _ => assert!(false, "[C07] mutable accessor: Some/None does not match the contents"),
+    }
+    assert!(b.start == st && b.size == sz && ids_of(&b).eq(&old), "[C01,C07] mutable accessor changed the buffer by itself");
+    // a write through the reference changes exactly that position
+    if let (Some(p), Some(k)) = (got, want_idx) {
+        unsafe { (*p).id = 63; }
+        let new = ids_of(&b);
+        let mut m = old; m.a[k] = 63;
+        assert!(new.eq(&m), "[C01,C07] write through a mutable accessor changed a different position");
+    }
+    nd::reached();
+    core::mem::forget(b);
+}
+
+pub(crate) fn c_as_slices<const N: usize>() {
+    let mut b = any_tokbuf::<N>();
+    let old = ids_of(&b);
+    {
+        let (x, y) = b.as_slices();
+        assert!(x.len() + y.len() == old.len, "[C07] as_slices: total length differs from len()");
+        assert!(old.len == 0 || x.len() > 0, "[C07,C14] as_slices: first slice empty although the buffer is not");
+        let mut i = 0;
+        while i < old.len {
+            let t = if i < x.len() { &x[i] } else { &y[i - x.len()] };
+            assert!(t.id == old.a[i] && (t as *const Tok) == slot_ptr(&b, i), "[C07] as_slices: concatenation is not the contents in order");
+            i += 1;
+        }
+    }
+    {
+        let (x, y) = b.as_mut_slices();
+        let (xl, yl) = (x.len(), y.len());
+        let (xp, yp) = (x.as_ptr(), y.as_ptr());
+        assert!(xl + yl == old.len, "[C07] as_mut_slices: total length differs from len()");
+        let mut i = 0;
+        while i < old.len {
+            let p = if i < xl { unsafe { xp.add(i) } } else { unsafe { yp.add(i - xl) } };
+            assert!(p == slot_ptr(&b, i), "[C07] as_mut_slices: does not alias exactly the elements in order");
+            i += 1;
+        }
+    }
+    assert!(ids_of(&b).eq(&old), "[C07] slice views changed the buffer");
+    nd::reached();
+    core::mem::forget(b);
+}
+
+pub(crate) fn c_iter_views<const N: usize>() {
+    let mut b = any_tokbuf::<N>();
+    let old = ids_of(&b);
+    {
+        let mut it = b.iter();
+        assert!(it.len() == old.len, "[C07,C08] iter().len() differs from len()");
+        let mut i = 0;
+        while i < old.len {
+            match it.next() { Some(t) => assert!(t.id == old.a[i] && (t as *const Tok) == slot_ptr(&b, i), "[C07,C08] iter(): wrong element at this position"),
+                              None => assert!(false, "[C07,C08] iter() ended early") }
+            i += 1;
+        }
+        assert!(it.next().is_none() && it.next_back().is_none(), "[C07,C08] iter() yields more than the contents");
+    }
+    {
+        let mut ptrs = [core::ptr::null::<Tok>(); CAP];
+        let mut k = 0;
+        {
+            let mut it = b.iter_mut();
+            assert!(it.len() == old.len, "[C07,C08] iter_mut().len() differs from len()");
+            while let Some(t) = it.next() { assert!(k < old.len, "[C07,C08] iter_mut() yields more than the contents"); ptrs[k] = t as *mut Tok as *const Tok; k += 1; }
+        }
+        assert!(k == old.len, "[C07,C08] iter_mut() ended early");
+        let mut i = 0; while i < old.len { assert!(ptrs[i] == slot_ptr(&b, i), "[C07,C08] iter_mut(): does not address the elements in order, pairwise distinct"); i += 1; }
+    }
+    {
+        let mut it = (&b).into_iter();
+        let mut i = 0; while i < old.len { assert!(it.next().map(|t| t.id) == Some(old.a[i]), "[C07,C08] (&buf).into_iter(): wrong element"); i += 1; }
+        assert!(it.next().is_none(), "[C07,C08] (&buf).into_iter() yields more than the contents");
+    }
+    assert!(ids_of(&b).eq(&old), "[C07] iterators changed the buffer");
+    nd::reached();
+    core::mem::forget(b);
+}
+
+// ----- fill family (C01 C03 C05 C06) --------------------------------------------------------
+
+fn is_value_or_clone(id: u8, vid: u8) -> bool { id == vid || ((id as usize) < MAXID && parent(id as usize) == vid) }
+
+pub(crate) fn c_fill_spare<const N: usize>() {
+    let mut b = any_tokbuf::<N>();
+    watch(&b);
+    let old = ids_of(&b);
+    let v = Tok::fresh(); let vid = v.id;
+    b.fill_spare(v);
+    unwatch();
+    post_common(&b, "fill_spare");
+    let new = ids_of(&b);
+    assert!(new.len == N && b.is_full(), "[C01] fill_spare: buffer not full afterwards");
+    let mut i = 0;
+    while i < new.len {
+        if i < old.len { assert!(new.a[i] == old.a[i], "[C01] fill_spare: existing element changed"); }
+        else { assert!(is_value_or_clone(new.a[i], vid), "[C01] fill_spare: free slot not filled with the value or a clone of it"); }
+        i += 1;
+    }
+    assert!(ledger_ok(&new, &Seq::new()), "[C03] fill_spare: element lost, duplicated, leaked or destroyed twice");
+    nd::reached();
+    core::mem::forget(b);
+}
+
+pub(crate) fn c_fill<const N: usize>() {
+    let mut b = any_tokbuf::<N>();
+    watch(&b);
+    let old = ids_of(&b);
+    let v = Tok::fresh(); let vid = v.id;
+    b.fill(v);
+    unwatch();
+    post_common(&b, "fill");
+    let new = ids_of(&b);
+    assert!(new.len == N && b.is_full(), "[C01] fill: buffer not full afterwards");
+    let mut i = 0; while i < new.len { assert!(is_value_or_clone(new.a[i], vid), "[C01] fill: position does not hold the value or a clone of it"); i += 1; }
+    assert!(ledger_ok(&new, &Seq::new()), "[C03] fill: old element leaked / element destroyed twice");
+    nd::reached();
+    core::mem::forget(b);
+}
+
+pub(crate) fn c_fill_with<const N: usize>() {
+    let mut b = any_tokbuf::<N>();
+    watch(&b);
+    let old = ids_of(&b);
+    let first = next_id();
+    let spare_only = nd::any_bool();
+    if spare_only { b.fill_spare_with(|| { callback_entry(); Tok::fresh() }); } else { b.fill_with(|| { callback_entry(); Tok::fresh() }); }
+    unwatch();
+    post_common(&b, "fill_with");
+    let new = ids_of(&b);
+    assert!(new.len == N && b.is_full(), "[C01] fill_with/fill_spare_with: buffer not full afterwards");
+    let keep = if spare_only { old.len } else { 0 };
+    let mut i = 0;
+    while i < new.len {
+        if i < keep { assert!(new.a[i] == old.a[i], "[C01] fill_spare_with: existing element changed"); }
+        else { assert!(new.a[i] as usize == first + (i - keep), "[C01] fill_with/fill_spare_with: generated elements not stored in call order"); }
+        i += 1;
+    }
+    assert!(next_id() == first + (N - keep), "[C01] fill_with/fill_spare_with: closure called a wrong number of times");
+    assert!(ledger_ok(&new, &Seq::new()), "[C03] fill_with/fill_spare_with: element lost, duplicated, leaked or destroyed twice");
+    nd::reached();
+    core::mem::forget(b);
+}
+
+// ----- bulk insertion and conversions (C01 C03 C06 C12) -------------------------------------
+
+pub(crate) struct TokIter { pub left: usize }
+impl Iterator for TokIter {
+    type Item = Tok;
+    fn next(&mut self) -> Option<Tok> { callback_entry(); if self.left == 0 { None } else { self.left -= 1; Some(Tok::fresh()) } }
+}
+
+pub(crate) fn c_extend<const N: usize>() {
+    let mut b = any_tokbuf::<N>();
+    watch(&b);
+    let old = ids_of(&b);
+    let n = nd::usize_in(0, N + 2);
+    let first = next_id();
+    b.extend(TokIter { left: n });
+    unwatch();
+    post_common(&b, "extend");
+    let new = ids_of(&b);
+    let mut m = old; let mut k = 0; while k < n { m.push((first + k) as u8); k += 1; }
+    m.keep_last(N);
+    assert!(new.eq(&m), "[C01,C12] extend: contents are not the last N of (old contents ++ items)");
+    assert!(ledger_ok(&new, &Seq::new()), "[C03,C12] extend: evicted element not destroyed exactly once / element lost");
+    nd::reached();
+    core::mem::forget(b);
+}
+
+pub(crate) fn c_from_iter<const N: usize>() {
+    let n = nd::usize_in(0, N + 2);
+    let first = next_id();
+    let b: CircularBuffer<N, Tok> = TokIter { left: n }.collect();
+    post_common(&b, "from_iter");
+    let new = ids_of(&b);
+    let mut m = Seq::new(); let mut k = 0; while k < n { m.push((first + k) as u8); k += 1; }
+    m.keep_last(N);
+    assert!(new.eq(&m), "[C12] from_iter: contents are not the last N items in order");
+    assert!(ledger_ok(&new, &Seq::new()), "[C03,C12] from_iter: discarded item not destroyed exactly once / element lost");
+    nd::reached();
+    core::mem::forget(b);
+}
+
+pub(crate) fn c_extend_from_slice<const N: usize, const L: usize>() {
+    let mut b = any_tokbuf::<N>();
+    watch(&b);
+    let old = ids_of(&b);
+    let src: [Tok; L] = core::array::from_fn(|_| Tok::fresh());
+    let first_src = if L > 0 { src[0].id as usize } else { 0 };
+    let n = nd::usize_in(0, L);
+    b.extend_from_slice(&src[..n]);
+    unwatch();
+    post_common(&b, "extend_from_slice");
+    let new = ids_of(&b);
+    let total = old.len + n;
+    let keep = if total < N { total } else { N };
+    assert!(new.len == keep, "[C01] extend_from_slice: wrong length");
+    let skip = total - keep;
+    let mut i = 0;
+    while i < keep && i < new.len {
+        let j = skip + i;
+        let id = new.a[i] as usize;
+        if j < old.len { assert!(id == old.a[j] as usize, "[C01] extend_from_slice: surviving old element missing or out of order"); }
+        else { assert!(id < MAXID && id >= first_src + L && parent(id) as usize == first_src + (j - old.len), "[C01] extend_from_slice: position does not hold a fresh clone of the right slice element"); }
+        i += 1;
+    }
+    let mut held = Seq::new(); let mut k = 0; while k < L { held.push(src[k].id); k += 1; }
+    assert!(ledger_ok(&new, &held), "[C03] extend_from_slice: evicted element not destroyed exactly once / clone leaked or duplicated");
+    nd::reached();
+    core::mem::forget(b); core::mem::forget(src);
+}
+
+pub(crate) fn c_from_array<const N: usize, const M: usize>() {
+    let arr: [Tok; M] = core::array::from_fn(|_| Tok::fresh());
+    let b: CircularBuffer<N, Tok> = CircularBuffer::from(arr);
+    post_common(&b, "from(array)");
+    let new = ids_of(&b);
+    let keep = if M < N { M } else { N };
+    assert!(new.len == keep, "[C12] From<[T; M]>: wrong length");
+    let mut i = 0; while i < keep && i < new.len { assert!(new.a[i] as usize == M - keep + i, "[C12] From<[T; M]>: contents are not the last N array elements in order"); i += 1; }
+    assert!(ledger_ok(&new, &Seq::new()), "[C03,C12] From<[T; M]>: discarded prefix not destroyed exactly once / element duplicated");
+    nd::reached();
+    core::mem::forget(b);
+}
+
+pub(crate) fn c_new<const N: usize>() {
+    let b = CircularBuffer::<N, Tok>::new();
+    assert!(wf(&b) && b.len() == 0 && b.is_empty() && b.capacity() == N, "[C12] new(): not an empty buffer of capacity N");
+    let d: CircularBuffer<N, Tok> = Default::default();
+    assert!(wf(&d) && d.len() == 0 && d.is_empty(), "[C12] default(): not an empty buffer");
+    nd::reached();
+}
+
+#[cfg(feature = "alloc")]
+pub(crate) fn c_boxed<const N: usize>() {
+    let b = CircularBuffer::<N, Tok>::boxed();
+    assert!(wf(&*b) && b.len() == 0 && b.is_empty() && b.capacity() == N, "[C12] boxed(): not an empty buffer of capacity N");
+    nd::reached();
+}
+
+pub(crate) fn c_clone<const N: usize>() {
+    let b = any_tokbuf::<N>();
+    watch(&b);
+    let old = ids_of(&b);
+    let first = next_id();
+    let c = b.clone();
+    unwatch();
+    post_common(&c, "clone");
+    let cn = ids_of(&c);
+    assert!(ids_of(&b).eq(&old), "[C12] clone: source changed");
+    assert!(cn.len == old.len, "[C12] clone: wrong length");
+    let mut i = 0;
+    while i < old.len && i < cn.len {
+        let id = cn.a[i] as usize;
+        assert!(id >= first && id < MAXID && parent(id) == old.a[i], "[C12] clone: position is not a fresh clone of the source element at the same position");
+        i += 1;
+    }
+    let mut both = old; let mut k = 0; while k < cn.len { both.push(cn.a[k]); k += 1; }
+    assert!(ledger_ok(&both, &Seq::new()), "[C03,C12] clone: element shared, lost or destroyed");
+    nd::reached();
+    core::mem::forget(b); core::mem::forget(c);
+}
+
+pub(crate) fn c_clone_from<const N: usize>() {
+    let mut dst = any_tokbuf::<N>();
+    let src = any_tokbuf::<N>();
+    watch(&dst);
+    let old_dst = ids_of(&dst); let old_src = ids_of(&src);
+    let first = next_id();
+    dst.clone_from(&src);
+    unwatch();
+    post_common(&dst, "clone_from");
+    let dn = ids_of(&dst);
+    assert!(ids_of(&src).eq(&old_src), "[C12] clone_from: source changed");
+    assert!(dn.len == old_src.len, "[C12] clone_from: wrong length");
+    let mut i = 0;
+    while i < old_src.len && i < dn.len {
+        let id = dn.a[i] as usize;
+        assert!(id >= first && id < MAXID && parent(id) == old_src.a[i], "[C12] clone_from: position is not a fresh clone of the source element at the same position");
+        i += 1;
+    }
+    let mut both = old_src; let mut k = 0; while k < dn.len { both.push(dn.a[k]); k += 1; }
+    assert!(ledger_ok(&both, &Seq::new()), "[C03,C12] clone_from: old contents not destroyed exactly once / element shared or lost");
+    nd::reached();
+    core::mem::forget(dst); core::mem::forget(src);
+}
+
+#[cfg(feature = "alloc")]
+pub(crate) fn c_to_vec<const N: usize>() {
+    let b = any_tokbuf::<N>();
+    watch(&b);
+    let old = ids_of(&b);
+    let first = next_id();
+    let v = b.to_vec();
+    unwatch();
+    assert!(ids_of(&b).eq(&old), "[C12] to_vec: source changed");
+    assert!(v.len() == old.len, "[C07,C12] to_vec: wrong length");
+    let mut both = old;
+    let mut i = 0;
+    while i < old.len && i < v.len() {
+        let id = v[i].id as usize;
+        assert!(id >= first && id < MAXID && parent(id) == old.a[i], "[C07,C12] to_vec: element is not a fresh clone of the element at the same position");
+        both.push(v[i].id);
+        i += 1;
+    }
+    assert!(ledger_ok(&both, &Seq::new()), "[C03,C12] to_vec: element shared, lost or destroyed");
+    nd::reached();
+    core::mem::forget(b); core::mem::forget(v);
+}
+
+/// owning iterator: any interleaving of next / next_back, then dropped after any number of steps
+pub(crate) fn c_into_iter<const N: usize>() {
+    let b = any_tokbuf::<N>();
+    let old = ids_of(&b);
+    let mut it = b.into_iter();
+    let mut m = old; let mut held = Seq::new();
+    let steps = nd::usize_in(0, N + 1);
+    let mut k = 0;
+    while k < steps {
+        assert!(it.len() == m.len && it.size_hint() == (m.len, Some(m.len)), "[C08] into_iter: len()/size_hint() differ from the number of elements not yet produced");
+        if nd::any_bool() {
+            let r = it.next(); let mr = m.pop_front();
+            assert!(opt_id(&r) == mr, "[C08,C12] into_iter: next() does not yield the front-most remaining element");
+            if let Some(t) = r { held.push(t.id); core::mem::forget(t); }
+        } else {
+            let r = it.next_back(); let mr = m.pop_back();
+            assert!(opt_id(&r) == mr, "[C08,C12] into_iter: next_back() does not yield the back-most remaining element");
+            if let Some(t) = r { held.push(t.id); core::mem::forget(t); }
+        }
+        k += 1;
+    }
+    assert!(ledger_ok(&m, &held), "[C03] into_iter: element lost, duplicated or destroyed while iterating");
+    drop(it);
+    assert!(ledger_ok(&Seq::new(), &held), "[C03,C12] into_iter: remaining elements not destroyed exactly once when the iterator is dropped");
+    nd::reached();
+}
